@@ -252,6 +252,21 @@ REGISTRY = {
         assumptions=COMMON_ASSUMPTIONS[:1] + COMMON_ASSUMPTIONS[2:] + ["SciPy's LinearOperator composition classes are part of the code under test (they run on object arrays)", "sparse operands inside composites are numeric only and outside"],
         timeout_s={"quick": 300, "thorough": 900},
     ),
+    "C06": dict(
+        jobs=lambda tier, seed: __import__("vf.props.implicit", fromlist=["x"]).configs(tier),
+        job_of_config=_job_of("vf.props.implicit", "c06"),
+        technique="real implicit-mode block_diagonalize (operator_to_BlockSeries(implicit=True), ComplementProjector, solve_sylvester_direct grouping / pivots / both orientations, direct_greens_function, "
+        "LinearOperator series wiring) executed with exactly representable numeric H_0 and eigenvectors and a SYMBOLIC perturbation; scipy's sparse LU is stubbed by exact rational elimination; "
+        "z3 decides every explicit block and every block touching the implicit subspace (applied to the identity) != complete-basis result embedded by the complement basis; sat models are replayed with the REAL sparse LU in floats",
+        bounds={
+            "quick": "dim 3-4, one or two explicit blocks (sizes 1-2), real orthogonal / permutation / Hadamard and complex-unitary (dyadic) eigenbases, degenerate explicit level, dense and sparse H_0, "
+            "(R,L) pair form in non-Hermitian mode, orders <=3",
+            "thorough": "adds dim 5 and order 4",
+        },
+        assumptions=COMMON_ASSUMPTIONS + ["stub: scipy.sparse.linalg.factorized replaced by exact rational elimination (contract A solve(b) = b); accuracy of SuperLU/MUMPS is outside",
+                                          "NOT APPLICABLE sub-claims: KPM solver and its tolerance claim (iterative float code), MUMPS"],
+        timeout_s={"quick": 400, "thorough": 1500},
+    ),
 }
 
 # Properties not (yet) claimed, each with the reason.  Entries disappear as checks are registered.
